@@ -781,9 +781,17 @@ impl PackageBuilder {
         self.requires
             .push(Dependency::rpmlib("PayloadFilesHavePrefix", "4.0-1"));
 
-        if self.compression.compression_type() == CompressionType::Zstd {
-            self.requires
-                .push(Dependency::rpmlib("PayloadIsZstd", "5.4.18-1"));
+        match self.compression.compression_type() {
+            CompressionType::Zstd => self
+                .requires
+                .push(Dependency::rpmlib("PayloadIsZstd", "5.4.18-1")),
+            CompressionType::Xz => self
+                .requires
+                .push(Dependency::rpmlib("PayloadIsXz", "5.2-1")),
+            CompressionType::Bzip2 => self
+                .requires
+                .push(Dependency::rpmlib("PayloadIsBzip2", "3.0.5-1")),
+            CompressionType::Gzip | CompressionType::None => {}
         }
 
         if uses_file_capabilities {
